@@ -28,15 +28,22 @@ def gen_history(g):
     if g.chance(1 / 6):
         planted = (["fit"] if g.chance(0.5) else []) + ["partial_fit", "freeze", g.choice(["fit_nodata", "fit_nodata", "partial_fit", "fit"])] \
             + [g.choice(["fit_nodata", "run", "fit"]) for _ in range(g.randint(0, 2))]
+    # one history in six starts with a malformed batch handed to the node BEFORE it has seen anything (the up-front
+    # checks of a not yet initialised node are a code path of their own)
+    first_malformed = planted is None and g.chance(1 / 6)
     for step in range(len(planted) if planted else g.randint(2, 7)):
         op = planted[step] if planted else g.choice(["run", "partial_fit", "fit", "fit", "fit", "fit_nodata", "freeze"])
+        if first_malformed and step == 0:
+            op = g.choice(["partial_fit", "fit"])
         e = {"op": op}
         if op in ("partial_fit", "fit"):
             k = g.randint(1, 3)
+            if first_malformed and step == 0:
+                k = g.randint(2, 3)
             e["seqs"] = [{"X": flow.seq_rows(g, L, d), "Y": flow.seq_rows(g, L, o)} for L in [g.randint(2, 5) for _ in range(k)]]
-            if g.chance(0.3):
+            if g.chance(0.3) and not (first_malformed and step == 0):
                 e["fail_at"] = g.randint(0, k - 1)
-            elif k >= 2 and g.chance(0.3):
+            elif k >= 2 and (g.chance(0.3) or (first_malformed and step == 0)):
                 # a malformed batch: sequence j >= 1 has another feature / target count, fewer target rows, or is no
                 # longer than the warm-up. The call must be REJECTED, and as a whole: none of the sequences before the bad
                 # one may have been accumulated (the next fit is the one of a node that never saw the batch)
@@ -471,6 +478,59 @@ def check_case(ctx, c):
         check_model_failed_fit(ctx, c)
 
 
+
+def check_clone_session(ctx, g):
+    """a training session carried on by a CLONE of the node (Node.copy, deepcopy, pickle round trip taken between two
+    partial fits - a checkpoint): the clone finishes the session with the sums it was cloned with, its next fit is again a
+    function of its own data only, and the original's session is not touched by what the clone does"""
+    import copy
+    import pickle
+    from reservoirpy.nodes import Ridge
+    ob = "clone_session"
+    d, o = g.randint(1, 3), g.randint(1, 2)
+    lam = g.choice([0.25, 0.5, 1.0])
+    via = g.choice(["copy", "deepcopy", "pickle"])
+    c = {"kind": "clone_session", "via": via, "d": d, "o": o}
+    ctx.count(c, nontrivial=True, obligation=ob)
+    ctx.stat(f"clone_session via={via}")
+
+    def data(L):
+        return (np.array(flow.seq_rows(g, L, d), dtype=float), np.array(flow.seq_rows(g, L, o), dtype=float))
+
+    def fresh_fit(parts):
+        f = Ridge(ridge=lam)
+        f.fit([p_[0] for p_ in parts], [p_[1] for p_ in parts])
+        return np.vstack([np.asarray(f.bias).reshape(1, -1), np.asarray(f.Wout)])
+
+    def W(n_):
+        return np.vstack([np.asarray(n_.bias).reshape(1, -1), np.asarray(n_.Wout)])
+    A, B, C_, D_ = data(g.randint(4, 7)), data(g.randint(4, 7)), data(g.randint(4, 7)), data(g.randint(4, 7))
+    node = Ridge(ridge=lam)
+    node.partial_fit(*A)
+    clone = {"copy": lambda n_: n_.copy(), "deepcopy": copy.deepcopy, "pickle": lambda n_: pickle.loads(pickle.dumps(n_))}[via](node)
+    try:
+        clone.partial_fit(*B)
+        clone.fit()
+        w1 = W(clone)
+        clone.fit(*C_)
+        w2 = W(clone)
+        node.partial_fit(*D_)
+        node.fit()
+        w3 = W(node)
+    except Exception as ex:  # noqa
+        ctx.violation(f"a session carried on by a clone ({via}) raised {type(ex).__name__}: {ex}", c, obligation=ob)
+        return
+    for label, got, parts, pn in (("the clone's fit() closing the session", w1, [A, B], "A+B"),
+                                  ("the clone's NEXT fit", w2, [C_], "C"),
+                                  ("the original's own session, closed after the clone's", w3, [A, D_], "A+D")):
+        exp = fresh_fit(parts)
+        if got.shape != exp.shape or not np.allclose(got, exp, rtol=1e-9, atol=1e-9):
+            ctx.violation(f"clone ({via}) taken between two partial fits: {label} is not the fit of a fresh node on "
+                          f"{pn} (max difference "
+                          f"{float(np.max(np.abs(got - exp))) if got.shape == exp.shape else 'shape'})", c, obligation=ob)
+            return
+
+
 def run(ctx):
     ctx.notes["rule"] = ("Ridge histories of 2-7 operations (run, partial_fit / fit on 1-3 sequences with an injected failure at a random sequence in 30% of "
                          "them, fit() without data, freeze / unfreeze); frame: reservoir >> Ridge | RLS | LMS | [RLS, LMS] models, digests of every array parameter of "
@@ -490,6 +550,8 @@ def run(ctx):
         check_model_failed_fit(ctx, gen_model_failed_fit(g))
     for _ in range(ctx.n(4, 40)):
         check_default_buffers_failed(ctx, g)
+    for _ in range(ctx.n(12, 120)):
+        check_clone_session(ctx, g)
 
 
 def replay(ctx, data):
@@ -502,6 +564,9 @@ def replay(ctx, data):
     elif c.get("kind") == "default_buffers_failed":
         for _ in range(4):
             check_default_buffers_failed(ctx, ctx.gen)
+    elif c.get("kind") == "clone_session":
+        for _ in range(12):
+            check_clone_session(ctx, ctx.gen)
     elif c.get("kind") == "frame":
         for _ in range(40):
             check_frame(ctx, ctx.gen)
